@@ -38,6 +38,24 @@ for d in sorted(os.listdir(os.path.join(V, "seeded"))):
         "caught_by": ev.get("caught_by", []),
         "silent": ev.get("silent", []),
     }
+    fp = os.path.join(p, "eval_first.json")
+    if os.path.exists(fp):
+        f = json.load(open(fp))
+        if "target_check_rc" in f:      # round 1: the first complete version of the target check
+            meta["first_pass"] = {"what": "target check of the first complete /verif version (commit a6318a9), before any strengthening",
+                                  "reported": f["target_check_rc"] == 1,
+                                  "note": ("found but not reported: the single work item did not reproduce the history-dependent fault "
+                                           "when re-executed in another process; fixed by per-task process isolation")
+                                  if f["target_check_rc"] == 2 else ""}
+        else:                           # round 2: checks as they were when the round-2 agents delivered
+            meta["first_pass"] = {"what": "checks as committed when the second-round changes were delivered (commit bbd2bb2 + 1), before the "
+                                          "second strengthening", "caught_by": f.get("caught_by", []), "silent": f.get("silent", []),
+                                  "reported": prop in f.get("caught_by", [])}
+    if "first_pass" in meta and "caught_by" in meta["first_pass"]:
+        # the last run covered the target check only; checks that caught the change earlier still do (checks were only extended)
+        meta["caught_by"] = sorted(set(meta["caught_by"]) | set(meta["first_pass"]["caught_by"]))
+        meta["silent"] = sorted((set(meta["silent"]) | set(meta["first_pass"]["silent"])) - set(meta["caught_by"]))
+        meta["checks_run_quick_tier"] = sorted(set(meta["caught_by"]) | set(meta["silent"]))
     json.dump(meta, open(os.path.join(p, "meta.json"), "w"), indent=1)
     ok = ("264 passed" in (ev.get("baseline") or "")) and ev.get("demo_clean_rc") == 0 and ev.get("demo_mutant_rc") == 1
-    print(d, "CONFIRMED" if ok else "NOT-CONFIRMED", "caught_by=", ev.get("caught_by"), "target_caught=", prop in ev.get("caught_by", []))
+    print(d, "CONFIRMED" if ok else "NOT-CONFIRMED", "caught_by=", meta["caught_by"], "target_caught=", prop in meta["caught_by"])
